@@ -7,7 +7,7 @@ func init() { vxRegister("vxH_C20_gauges", vxH_C20_gauges) }
 // vxMaybeChildStack returns a stack that may hold a segment of its own
 // and/or a child stack "c" with a segment (chosen symbolically).
 func vxMaybeChildStack(opts *CollectionOptions) (ss *segmentStack, nonEmpty bool) {
-	switch vxChoose(4) {
+	switch vxChoose(5) {
 	case 0:
 		return nil, false
 	case 1: // present but empty
@@ -16,9 +16,15 @@ func vxMaybeChildStack(opts *CollectionOptions) (ss *segmentStack, nonEmpty bool
 		ss = &segmentStack{options: opts, refs: 1}
 		ss.a = append(ss.a, vxSegOf(vxNewEnts(1, 1, 1, vxOpsSetDel)))
 		return ss, true
-	default: // child-only data
+	case 3: // child-only data
 		child := &segmentStack{options: opts, refs: 1, incarNum: 1}
 		child.a = append(child.a, vxSegOf(vxNewEnts(1, 1, 1, vxOpsSetDel)))
+		ss = &segmentStack{options: opts, refs: 1, childSegStacks: map[string]*segmentStack{"c": child}}
+		return ss, true
+	default: // grandchild-only data
+		grand := &segmentStack{options: opts, refs: 1, incarNum: 2}
+		grand.a = append(grand.a, vxSegOf(vxNewEnts(1, 1, 1, vxOpsSetDel)))
+		child := &segmentStack{options: opts, refs: 1, incarNum: 1, childSegStacks: map[string]*segmentStack{"g": grand}}
 		ss = &segmentStack{options: opts, refs: 1, childSegStacks: map[string]*segmentStack{"c": child}}
 		return ss, true
 	}
